@@ -3,6 +3,9 @@ namespace Yaclib.When
 
 set_option maxHeartbeats 4000000 in
 theorem invr_step {w s l s'} (hC : InvC w s) (hi : InvR w s) (hs : Step w s l s') : InvR w s' := by
+  have hword := hC.word
+  have haf := Strat.anyFF_facts
+  have hal := Strat.anyLF_facts
   cases hi
   cases hs with
   | regSet i okb hc hb hr hn =>
